@@ -178,6 +178,41 @@ func checkC20(c *Ctx) {
 				}
 				return rooted(ld.X, d+1)
 			}
+			// the result of a lookup helper that is given (something reachable from) the entry and writes nothing:
+			// `found, at := lastAttribute(e, name)`
+			lookup := func(call *ssa.Call) bool {
+				g := an.StaticCallee(call.Common())
+				if g == nil || !an.InModule(g) || len(g.Blocks) == 0 {
+					return false
+				}
+				pure := true
+				an.Instrs(g, func(in ssa.Instruction) {
+					if st, isSt := in.(*ssa.Store); isSt {
+						if _, local := st.Addr.(*ssa.Alloc); !local {
+							pure = false
+						}
+					}
+				})
+				if !pure {
+					return false
+				}
+				for _, a := range call.Common().Args {
+					if rooted(a, d+1) {
+						return true
+					}
+				}
+				return false
+			}
+			switch x := an.Strip(v).(type) {
+			case *ssa.Extract:
+				if call, ok := x.Tuple.(*ssa.Call); ok && isPointer(x.Type()) && lookup(call) {
+					return true
+				}
+			case *ssa.Call:
+				if isPointer(x.Type()) && lookup(x) {
+					return true
+				}
+			}
 			switch x := v.(type) {
 			case *ssa.FieldAddr:
 				return rooted(x.X, d+1)
@@ -367,6 +402,60 @@ func checkC20(c *Ctx) {
 			} else {
 				R.OK("C20-arms", key, c.pos(ifs[0].If), "every path through the arm (with the attribute present"+map[bool]string{true: ", or absent", false: ""}[op == 0]+") stores into memory reachable from the matched entry")
 			}
+		}
+		// ---- C20-lookup (helper form): a lookup helper of the handler that scans the entry's attributes tries all of
+		// them: it leaves its loop early only where the names were found equal (an early "not found" - e.g. one that
+		// assumes the attributes are sorted - makes a change miss an attribute the entry has)
+		for _, ci := range an.Calls(h) {
+			call, isCall := ci.(*ssa.Call)
+			if !isCall {
+				continue
+			}
+			g := an.StaticCallee(call.Common())
+			if g == nil || !an.InModule(g) || len(g.Blocks) == 0 {
+				continue
+			}
+			argRooted := false
+			for _, a := range call.Common().Args {
+				if rooted(a, 0) {
+					argRooted = true
+				}
+			}
+			if !argRooted {
+				continue
+			}
+			var heads []*ssa.If
+			an.Instrs(g, func(in ssa.Instruction) {
+				if iff, ok := in.(*ssa.If); ok && an.IsRangeHeader(iff) {
+					heads = append(heads, iff)
+				}
+			})
+			if len(heads) == 0 {
+				continue
+			}
+			isNameEq := func(v ssa.Value) bool {
+				bo, ok := v.(*ssa.BinOp)
+				if !ok || bo.Op != token.EQL {
+					return false
+				}
+				for _, o := range []ssa.Value{bo.X, bo.Y} {
+					if _, isName := fieldLoad(o, G, "EntryAttribute", "Name"); isName {
+						return true
+					}
+				}
+				return false
+			}
+			key := fname(h) + ": lookup helper " + fname(g) + " tries every attribute"
+			bad := ""
+			for _, ret := range an.Returns(g) {
+				for _, hd := range heads {
+					body, exit := hd.Block().Succs[0], hd.Block().Succs[1]
+					if body.Dominates(ret.Block()) && !exit.Dominates(ret.Block()) && !hasFact(ret.Block(), true, isNameEq) {
+						bad = c.pos(ret)
+					}
+				}
+			}
+			R.Check(bad == "", "C20-lookup", key, c.pos(call), "it returns from inside its loop only where the attribute's name equals the one asked for", "the lookup returns from inside its loop at "+bad+" without having found the name (e.g. assuming sorted attributes): attributes further on are never compared, so a change can miss an attribute the entry has")
 		}
 		// ---- C20-lookup: each change is applied to the attribute looked up FOR THAT CHANGE: what the arms test
 		// and index with (the found attribute, its position) must not be carried over from the previous change
